@@ -75,6 +75,8 @@ def r121(ctx):
                 r.eq('%s:reply' % fnp, em.reply, row['reply'], esite, why='awaited reply type')
             if row['ret'] is not None:
                 r.eq('%s:returns' % fnp, S.show(ret), row['ret'], site, why='returned value')
+            if row['ret'] is not None:
+                r.check('%s:error-propagated' % fnp, getattr(em, 'propagated', False), esite, why="the emission's Result must be returned, mapped or `?`-propagated, not dropped")
             if row.get('pre'):
                 macs = [S.show(e.term) for e in events if e.kind == 'macro' and S.dominates(e, em.ev)]
                 for p in row['pre']:
